@@ -61,6 +61,7 @@ class Hooks:
         self.opt_args = opt_args  # single-item cache: the arguments are stored in / compared with slots that start as None
         self.ex = None
         self.result_vars = set()
+        self.locks = set()
 
     # ---- expressions
     def expr(self, n, go):
@@ -121,6 +122,14 @@ class Hooks:
             finally:
                 ex.restore(saved)
 
+        # `with lock:` (a threading lock created in the decorator's scope, no `as`): for ONE caller
+        # the block is its statements - acquiring a free re-entrant lock and releasing it do
+        # nothing else.  (What the lock means for several callers is the concurrent model's business.)
+        if isinstance(s, ast.With):
+            if not (len(s.items) == 1 and s.items[0].optional_vars is None and _name(s.items[0].context_expr)
+                    and s.items[0].context_expr.id in self.locks):
+                raise Untranslatable("with statement at line %d" % s.lineno)
+            return st.block(list(s.body) + list(rest), k, depth)
         if isinstance(s, ast.Nonlocal):
             if s.names != ["cache"]:
                 raise Untranslatable("nonlocal %s" % s.names)
@@ -176,6 +185,12 @@ def _translate(src, outer, lean_name, opt_args, binders, cache_ty, key_env):
     fn, w = _wrapper(src, outer)
     varg, vkw = w.args.vararg.arg, w.args.kwarg.arg
     hooks = Hooks(varg, vkw, opt_args)
+    for n in fn.body:
+        if (isinstance(n, (ast.Assign, ast.AnnAssign)) and isinstance(n.value, ast.Call) and isinstance(n.value.func, ast.Attribute)
+                and n.value.func.attr in ("Lock", "RLock") and _name(n.value.func.value, "threading")):
+            t = n.targets[0] if isinstance(n, ast.Assign) else n.target
+            if _name(t):
+                hooks.locks.add(t.id)
     env = {"time.time()": "world.time", VALID: VALID, "max_size": "max_size"}
     env.update(key_env(varg, vkw))
     ex = pystmt.Expr(env=env, hook=hooks.expr)
